@@ -160,7 +160,7 @@ func jsMsg(m proto.Message) any {
 	if !r.IsValid() {
 		return map[string]any{"type": string(r.Descriptor().FullName()), "typed_nil": true}
 	}
-	txt, _ := prototext.MarshalOptions{Multiline: false}.Marshal(m)
+	txt, _ := prototext.MarshalOptions{Multiline: false, EmitUnknown: true}.Marshal(m)
 	s := string(txt)
 	for strings.Contains(s, "  ") {
 		s = strings.ReplaceAll(s, "  ", " ")
